@@ -168,3 +168,53 @@ def check_conversion(repo: Repo, run: Any, rule: str, keys: List[str], classes: 
             run.ob(rule, f"result|{key}|{exc}", ok,
                    f"{exc} raised by operator {key} ({why}) " + ("is in result()'s except tuple" if ok else "is NOT caught by result()"), ev.loc(fn))
     run.floor(rule, n, 5)
+
+
+_local: Dict[str, Engine] = {}
+
+
+def local_engine(repo: Repo) -> Engine:
+    """An engine in which visiting a sub-tree contributes no effects: R_local(m) is what arises in
+    m's own code and the non-visitor functions it calls."""
+    k = str(repo.root)
+    if k not in _local:
+        e = Engine(repo)
+        e.novisit = True
+        _local[k] = e
+    return _local[k]
+
+
+def local_effects(repo: Repo, cls: str, method: str):
+    eng = local_engine(repo)
+    mcv = eng.method_cv(cls, method)
+    if mcv is None:
+        raise AnchorMissing(f"{cls}.{method} missing")
+    args = [of_kind(cls), Val(rules=FS({method}))] if method in eng.g.rules else [of_kind(cls)]
+    res = eng.fix(lambda: eng.analyze(mcv, args))
+    key = (mcv.key(), tuple(a.key() for a in args))
+    return {(e, t): short_why(eng.explain(key, (e, t))) for e, t in res[0]}
+
+
+def callable_effects(repo: Repo, module: str, qualname: str, expr: ast.expr, nargs: int = 2) -> Dict[str, str]:
+    """Effects of calling the callable denoted by ``expr`` (an expression inside the given function)
+    with dynamic arguments."""
+    from .effwalk import Walker
+
+    eng = engine(repo)
+    cv = eng.fn_cv(module, qualname)
+
+    def thunk():
+        w = Walker(eng, cv, [], {}, ("probe", module, qualname))
+        try:
+            w.block(w.node.body)
+        except Exception:  # noqa: BLE001
+            pass
+        w.effs = set()
+        w.tries = []
+        v = w.ev(expr)
+        w.effs = set()
+        w.call_val(v, [DYN] * nargs, {}, expr)
+        return {e: short_why(eng.why.get((("probe", module, qualname), (e, t)), "")) for e, t in w.effs}, v
+
+    out, v = eng.fix(thunk)
+    return out
